@@ -127,3 +127,12 @@ func (e *Encoder) SetIndent(prefix, indent string) {
 }
 
 type RawMessage = json.RawMessage
+
+// Valid: symbolic mode knows exactly the byte strings it produced itself.
+func Valid(data []byte) bool {
+	if vrt.IsSymbolic() {
+		_, ok := Lookup(data)
+		return ok
+	}
+	return json.Valid(data)
+}
